@@ -1,5 +1,5 @@
 #!/usr/bin/env python3
-"""intake.py Cxx  — take the sub-agent's deliverables from /tmp/seed/Cxx/_seed/{A,B}, confirm each in a scratch worktree
+"""intake.py Cxx [--round2|--round3] — take the sub-agent's deliverables from /tmp/seed/Cxx/_seed/{A,B}, confirm each in a scratch worktree
 (lib/seedtest.py) and, when confirmed, keep it as /verif/seeded/Cxx-<A|B>/ with meta.json."""
 import json, os, shutil, subprocess, sys
 VERIF = os.path.dirname(os.path.dirname(os.path.abspath(__file__)))
@@ -11,6 +11,10 @@ if "--round2" in args:
     args.remove("--round2")
     root = "/tmp/seed2"
     rename = {"A": "C", "B": "D"}
+if "--round3" in args:
+    args.remove("--round3")
+    root = "/tmp/seed3"
+    rename = {"A": "E", "B": "F"}
 extra = args
 for v0 in ("A", "B"):
     v = rename[v0]
